@@ -3,7 +3,7 @@
 import io
 
 from codec_common import SPELLINGS, PACKED, BINARY, DISPLAY, FLOAT4, FLOAT8, canon, enc_packed, enc_zoned
-from layout_common import gen_tree, print_copybook, assign_names, tree_sx, schema_sx
+from layout_common import gen_tree, print_copybook, assign_names, tree_sx, schema_sx, spell
 
 GEN = ["JsonTypeParams", "EstructParams", "Cp037", "ConversionParams", "ConversionBodyParams"]
 RULE = ("field: EVERY (13 USAGE spellings x unsigned/signed x (m,n) with 1<=m+n<=18 x {digit runs written out, 9(m), 9(n), both}) copybook through "
@@ -17,7 +17,9 @@ RULE = ("field: EVERY (13 USAGE spellings x unsigned/signed x (m,n) with 1<=m+n<
         "tree: random record descriptions of C01's generator (+ FILLER redefiners) -> emitted schema compared with the model's build, "
         "Draft202012Validator.check_schema, SchemaMaker.from_json, the object every $ref / maxItemsDependsOn ended up bound to; the extended generator's "
         "document must have the same structure. meta: the whole emitted document as JSON, unchanged and with one keyword broken at a time, "
-        "check_schema's verdict against Spec/SchemaTruth.v valid_schema. Non-trivial = every case; distinct = distinct case lines.")
+        "check_schema's verdict against Spec/SchemaTruth.v valid_schema; the unchanged document (and the extended generator's document of the same description) "
+        "is also compared, member by member and in order, with Model/SchemaDoc.v doc over the model's build of the record description the harness printed "
+        "(names, data names, USAGE and PICTURE as printed; type / contentEncoding / conversion from the model of json_type; the cobol text read back from the emitted anchor). Non-trivial = every case; distinct = distinct case lines.")
 TRIVIAL_BRANCHES = []
 ASSUMPTIONS = [
     "how a PICTURE string yields (signed, integer digits, fraction digits) in estruct is the scanner's business (C13); json_type's own test is modelled on the raw text",
@@ -27,6 +29,9 @@ ASSUMPTIONS = [
     "the 2020-12 meta-schema is modelled for the keywords the generator emits (type $anchor $ref oneOf properties items maxItems minLength maxLength title "
     "contentEncoding); every other keyword is treated as unknown to the meta-schema; the model is tied to jsonschema's check_schema by the meta stream",
     "names are legal anchors (C17 / names starting with a letter); the tree model carries names as identifiers",
+    "the emitted DOCUMENT is Model/SchemaDoc.v doc over build (C08c): texts come from tables of names, data names, cobol texts and json_type keywords; "
+    "the text of the cobol keyword (level + source of the entry; unconstrained by the meta-schema) is not modelled - the meta stream reads it back from "
+    "the emitted sub-schema bearing the entry's $anchor and compares where it stands and that tables, inner items and $ref placeholders repeat it",
     "loading: SchemaMaker.from_json is modelled on the generated tree (name_cache keyed by $anchor else title) and compared on every tree case; "
     "no theorem composes it with build (C15 proves the loader on arbitrary documents)",
 ]
@@ -100,6 +105,9 @@ def inputs(ctx):
         yield "meta", dict(k=3, seed=seed, mut=0, pick=0)
         for mut in range(1, len(MUTATIONS) + 1):
             yield "meta-mutated", dict(k=3, seed=seed, mut=mut, pick=rng.randrange(1 << 30))
+    # ---- more unchanged documents: each is also compared with the model's rendering of the description (C08c)
+    for i in range(175 if quick else 2200):
+        yield "meta", dict(k=3, seed=rng.randrange(1 << 30), mut=0, pick=0)
 
 
 # ---------------------------------------------------------------- kind 1: one elementary item
@@ -489,7 +497,37 @@ def observe_meta(c):
         verdict = 0
     except Exception:
         verdict = 1
-    return [3, c["mut"], json_sx(js), verdict]
+    if c["mut"]:
+        return [3, c["mut"], json_sx(js), verdict, [], []]
+    # the unchanged document travels with the record description it was printed from, so that the judge can render the
+    # MODEL's document (Model/SchemaDoc.v doc_of over Model/Layout.v build) and compare it with the emitted one member by member
+    from stingray.cobol_parser import structure, dde_sentences, reference_format, JSONSchemaMakerExtendedVocabulary
+    maker = JSONSchemaMakerExtendedVocabulary()
+    (xjs,) = [maker.jsonschema(dde) for dde in structure(dde_sentences(reference_format(io.StringIO(cb))))]
+    try:
+        Draft202012Validator.check_schema(xjs)
+        xverdict = 0
+    except Exception:
+        xverdict = 1
+    return [3, 0, json_sx(js), verdict, tree_sx(tree), text_table(tree), json_sx(xjs), xverdict]
+
+
+def text_table(tree):
+    """what the generator wrote for every entry: (id, unique name, data name as written, USAGE spelling index, PICTURE text)"""
+    from lib import S
+    names = assign_names(tree)
+    rows = []
+
+    def go(n):
+        title = "FILLER" if n["filler"] else spell(n["id"])
+        if n["kind"] == "elem":
+            rows.append([n["id"], S(names[n["id"]]), S(title), SPELLINGS.index(n["usage"]), S(n["pic"])])
+        else:
+            rows.append([n["id"], S(names[n["id"]]), S(title), DISPLAY, []])
+        for k in n["kids"]:
+            go(k)
+    go(tree)
+    return rows
 
 
 def observe(ctx, c):
